@@ -1670,12 +1670,6 @@ func (up4 *UP4) sendDelete(deleted PacketForwardingRules, remaining PacketForwar
 		return err
 	}
 
-	// only now that the terminations entries are gone are their counter cells free
-	for i := range deleted.pdrs {
-		up4.releaseCounterID(preQosCounterID,
-			uint64(deleted.pdrs[i].ctrID))
-	}
-
 	// a failed write means a rejected request, also when it is one of the cleaning-up writes
 	if err := up4.resetMeters(deleted.qers); err != nil {
 		return ErrOperationFailedWithReason("reset P4 Meters", err.Error())
@@ -1694,6 +1688,14 @@ func (up4 *UP4) sendDelete(deleted PacketForwardingRules, remaining PacketForwar
 		}
 
 		up4.removeUeAddrAndFSEIDMappings(p)
+	}
+
+	// The counter cells are recorded with the PDRs only: they are released last, when nothing can
+	// reject the request any more. A rejected request leaves the PDRs (and their cells) with the
+	// session, and its repetition must not release them a second time.
+	for i := range deleted.pdrs {
+		up4.releaseCounterID(preQosCounterID,
+			uint64(deleted.pdrs[i].ctrID))
 	}
 
 	return nil
